@@ -3,7 +3,7 @@ import os
 import random
 
 from . import pool, tlc
-from .common import NCPU, Report, ToolError, build_harness, log, seed, workdir
+from .common import NCPU, Report, ToolError, build_harness, log, seed, workdir, replay_witness
 
 VARS = [-1, 0, 1, 2]
 
@@ -107,6 +107,10 @@ def c15(tier):
     hv = bins["release"]
     n, length = (1200, 30) if tier == "quick" else (20000, 45)
     reqs = []
+    rw = replay_witness()
+    if rw and "sigma" in rw:
+        reqs.append({"op": "expr", "id": "e0", "w": rw["w"], "sigma": rw["sigma"], "calls": rw["calls"]})
+        n = 0
     for k in range(n):
         w = [8, 16, 32, 64][k % 4]
         reqs.append({"op": "expr", "id": "e%d" % k, "w": w, "sigma": sigma_for(w, rng), "calls": history(rng, w, length)})
